@@ -585,6 +585,10 @@ def apply(func, args, kwargs=None):
                 and func in ("cmp_eq", "cmp_ne"):
             same = sa.func == sb.func
             return Rat.const(1 if same == (func == "cmp_eq") else 0)
+        if func in ("cmp_eq", "cmp_ne"):
+            ka, kb = a.key(), b.key()
+            if (ka == "$None" and b.is_const()) or (kb == "$None" and a.is_const()):
+                return Rat.const(0 if func == "cmp_eq" else 1)
         if func in ("cmp_eq", "cmp_ne") and not (b.is_zero() and _canon_sign(a)[1] == 1):
             try:
                 diff, _ = _canon_sign(a - b)
